@@ -9,7 +9,7 @@ import (
 
 // tracked accounts / tokens for balance observations
 func (w *world) trackedAccounts() map[string]common.Address {
-	m := map[string]common.Address{"endpoint": endpointAddr, "packet": packetAddr, "execute": executeAddr, "gov": w.gov.Eth, "adv": w.adv.Eth}
+	m := map[string]common.Address{"endpoint": endpointAddr, "packet": packetAddr, "execute": executeAddr, "agent": agentAddr, "adv": w.adv.Eth}
 	for _, u := range w.users {
 		m[u.Label] = u.Eth
 	}
@@ -155,8 +155,7 @@ func (w *world) checkDelta(c *xchain, what string, e exp) {
 	}
 }
 
-func (w *world) ledgerSend(c *xchain, pk *pkt, out *txOutcome) {
-	e := exp{}
+func (w *world) expectSend(e exp, c *xchain, pk *pkt) {
 	tn := c.tokName(pk.tok)
 	sn := w.acctName(pk.sender)
 	if pk.amount.Sign() > 0 {
@@ -174,7 +173,24 @@ func (w *world) ledgerSend(c *xchain, pk *pkt, out *txOutcome) {
 		e.add(fn, sn, neg(pk.feeAmt))
 		e.add(fn, "packet", pk.feeAmt)
 	}
+}
+
+func (w *world) ledgerSend(c *xchain, pk *pkt, out *txOutcome) {
+	e := exp{}
+	w.expectSend(e, c, pk)
 	w.checkDelta(c, "send", e)
+}
+
+// dstTokenFor: the token on chain dst that a transfer of tok from chain src resolves to.
+func (w *world) dstTokenFor(src, dst int, tok *token) *token {
+	d := w.chains[dst]
+	if tok.Wrapped && tok.OriChain == dst {
+		if tok.OriIsNat {
+			return d.native
+		}
+		return d.origin
+	}
+	return d.wrapped[fmt.Sprintf("%d/%s", src, lower(tok.Addr))]
 }
 
 // dstToken: which token on the destination a packet's transfer resolves to, and whether it is a
@@ -190,7 +206,7 @@ func (w *world) dstToken(pk *pkt) (*token, bool) {
 	return d.wrapped[fmt.Sprintf("%d/%s", pk.src, lower(pk.tok.Addr))], false
 }
 
-func (w *world) ledgerRecv(c *xchain, pk *pkt, a Ack, out *txOutcome) {
+func (w *world) ledgerRecv(c *xchain, pk *pkt, a Ack, out *txOutcome, nested []*pkt) {
 	e := exp{}
 	if a.Code == 0 {
 		if pk.amount.Sign() > 0 {
@@ -211,6 +227,9 @@ func (w *world) ledgerRecv(c *xchain, pk *pkt, a Ack, out *txOutcome) {
 		}
 		if pk.call == callCounter {
 			w.m.counterExp[c.idx]++
+		}
+		for _, np := range nested {
+			w.expectSend(e, c, np)
 		}
 	} else {
 		// refunded-to-be: no token or contract effect may remain on the destination
